@@ -8,6 +8,7 @@ CONSTANTS
   KsIdx = {1, 4, 9}
   TailLen = 0
   Variants = TRUE
+  Ks2 = 0
   ExtraKs = {4}
 INVARIANTS CheckAndEmit
 CHECK_DEADLOCK FALSE
